@@ -31,12 +31,19 @@ import time
 ROOT = os.path.dirname(os.path.abspath(__file__))
 LEAN = os.path.join(ROOT, "lean")
 HARNESS = os.path.join(ROOT, "harness")
-WORK = os.path.join(ROOT, "work")
+GWORK = os.path.join(ROOT, "work")          # shared between runs: locks, audit cache, manifests
 EVIDENCE = os.path.join(ROOT, "evidence")
-REPLAY = os.path.join(ROOT, "replay")
 CORPUS = os.path.join(ROOT, "corpus")
 PROPS = os.path.join(ROOT, "props")
 REPO = os.environ.get("EASYML_REPO", "/repo")
+if os.path.abspath(REPO) == "/repo":
+    WORK = GWORK
+    REPLAY = os.path.join(ROOT, "replay")
+else:
+    # a run against a scratch checkout keeps all its files apart, so that concurrent runs of the
+    # same property against different checkouts cannot read each other's streams
+    WORK = os.path.join(GWORK, "scratch-" + hashlib.sha1(os.path.abspath(REPO).encode()).hexdigest()[:8])
+    REPLAY = os.path.join(WORK, "replay")
 ALLOWED_AXIOMS = {"propext", "Classical.choice", "Quot.sound"}
 FORBIDDEN = re.compile(
     r"\b(sorry|admit|native_decide|bv_decide|implemented_by|unsafe)\b|^\s*axiom\s|maxHeartbeats\s+0\b"
@@ -78,8 +85,8 @@ class Lock:
     """Serialises lake / cargo builds between concurrently running checks."""
 
     def __init__(self, name):
-        os.makedirs(WORK, exist_ok=True)
-        self.path = os.path.join(WORK, name + ".lock")
+        os.makedirs(GWORK, exist_ok=True)
+        self.path = os.path.join(GWORK, name + ".lock")
 
     def __enter__(self):
         self.f = open(self.path, "w")
@@ -137,7 +144,7 @@ def harness_dir():
     each other's manifest nor wait for one another's builds."""
     if os.path.abspath(REPO) == "/repo":
         return HARNESS
-    d = os.path.join(WORK, "hm-" + repo_tag())
+    d = os.path.join(GWORK, "hm-" + repo_tag())
     os.makedirs(d, exist_ok=True)
     for name in ("src", ".cargo", "Cargo.toml.in"):
         link = os.path.join(d, name)
@@ -259,8 +266,8 @@ def forbidden_scan():
 
 def audit_theorems(pid, module, theorems):
     """Returns dict theorem -> {'ok': bool, 'axioms': [...], 'why': str}.  Cached by source hash."""
-    os.makedirs(os.path.join(WORK, "audit"), exist_ok=True)
-    cache_path = os.path.join(WORK, "audit", pid + ".json")
+    os.makedirs(os.path.join(GWORK, "audit"), exist_ok=True)
+    cache_path = os.path.join(GWORK, "audit", pid + ".json")
     key = lean_source_hash() + "|" + ",".join(theorems)
     if os.path.exists(cache_path):
         try:
@@ -276,7 +283,7 @@ def audit_theorems(pid, module, theorems):
         for t in theorems:
             result[t]["why"] = "lake build " + " ".join(modules) + " failed"
         return result, logtxt[-4000:]
-    src = os.path.join(WORK, "audit", f"Audit_{pid}.lean")
+    src = os.path.join(GWORK, "audit", f"Audit_{pid}.lean")
     with open(src, "w") as f:
         for mod in modules:
             f.write(f"import {mod}\n")
